@@ -828,8 +828,8 @@ def run_job(job, res):
                 if not r["problems"]:
                     c, ri, p, x, rel = max(r["sigloss"], key=lambda s: s[4])
                     viol.append({"key": SIGKEY,
-                                 "msg": f"pyimpspec {' '.join(argv)}: column {c!r} row {ri}: json shows {p!r} for {x!r} (relative error {rel:.2g}; "
-                                        f"{osd} significant digits were requested) - to_json() keeps ten decimals regardless of --output-significant-digits",
+                                 "msg": f"pyimpspec {' '.join(argv)}: column {c!r} row {ri}: json shows {p!r} for {x!r} (relative error {rel:.2g}, i.e. fewer than "
+                                        f"{min(osd, C.JSON_SIG_DIGITS)} significant digits) - to_json() keeps ten decimals regardless of --output-significant-digits",
                                  "witness": witness({"printed_value": p, "api_value": x})})
         if nontrivial:
             res["keys"].append(_job_key(job))
